@@ -6,7 +6,7 @@ Import ListNotations.
 (* operation codes of harness/C17_sched.py (OPS) *)
 Definition op_of_mpc (pc : mpc) : nat :=
   match pc with
-  | MPlayAcq _ | MCtlAcq _ _ | MCloseAcqH | MCloseLoopAcq => 0
+  | MPlayAcq _ _ | MCtlAcq _ _ | MCloseAcqH | MCloseLoopAcq => 0
   | MPlayRaiseRel | MPlayRel | MCtlRel _ _ | MCloseRelH2 | MCloseBreakRel | MCloseLoopRel _
   | MCloseRelH | MCloseRelHFail => 1
   | MPlayGoSet _ | MResumeSet _ _ | MStopSet _ _ => 2
